@@ -250,48 +250,49 @@ def _lazy_transform(ctx, P):
 
 def _rechunk_decision(ctx, P):
     """R06.9: after padding, the lonely boundary chunks are merged exactly when a core dimension is chunked; every input
-    comes back (padded, in order), merged or not."""
-    fi = P.func("grid_ufunc:_pad_then_rechunk")
+    reaches xarray.apply_ufunc (padded, in order), merged or not.  Observed through apply_as_grid_ufunc as a whole, so that
+    how the work is divided among private helpers is immaterial."""
+    fi = P.func("grid_ufunc:apply_as_grid_ufunc")
     dx, dy, t = dimsym("AX", "center"), dimsym("AY", "center"), Sym("t")
     one, two = (Lin.sym("n"),), (Lin.sym("n0"), Lin.sym("n1"))
     configs = [("in-memory", None, False), ("lazy, one chunk per dimension", {t: one, dy: one, dx: one}, False), ("lazy, chunked along the core dimension", {t: one, dy: one, dx: two}, True),
                ("lazy, chunked along a non-core dimension only", {t: two, dy: two, dx: one}, False)]
     for cname, chunks, want in configs:
         inst = f"pad then merge boundary chunks, {cname}"
-        am = dict(apply_attr_models())
+        am = {}
         am[("DataArray", "chunks")] = (lambda ev, o, n, chunks=chunks: None if chunks is None else tuple(chunks[d] for d in (t, dy, dx)))
         am[("DataArray", "variable")] = (lambda ev, o, n, chunks=chunks: Obj("Variable", "variable", (), {"chunksizes": dict(chunks or {})}))
         am[("DataArray", "chunksizes")] = (lambda ev, o, n, chunks=chunks: dict(chunks or {}))
-        ev = Evaluator(P, models=apply_models(), attr_models=am, method_models=da_method_models())
-
-        def make():
-            a = make_da("a", [t, dy, dx])
-            b = make_da("b", [t, dy, dx])
-            return dict(args=[a, b], grid=make_grid(("AX", "AY")), in_core_dims=[[dx], [dx]], boundary_width_real_axes={AX: (1, 1)}, boundary=Sym("B"), fill_value=Sym("F"),
-                        other_component=[None, None])
-
         try:
-            outs = ev.run_paths(fi, make)
+            outs = run_apply(P, "(X:center),(X:center)->(X:left)", [(AX,), (AX,)], args=lambda: (make_da("a", [t, dy, dx]), make_da("b", [t, dy, dx])),
+                             boundary_width={"X": (1, 1)}, attr_models=am, dask="parallelized")
         except Unmodelled as e:
             ctx.unknown("R06.9", inst, str(e))
             continue
         bad = None
+        seen = 0
         for o in outs:
             if o.kind != "return":
                 bad = f"raises {o.value}"
                 continue
             rc = [e for e in o.events if e[0] == "rechunk"]
-            v = o.value
-            names = [x.name if isinstance(x, Obj) else x for x in v] if isinstance(v, (list, tuple)) else None
-            ops = [[e[0] for e in x.eff] if isinstance(x, Obj) else None for x in v] if isinstance(v, (list, tuple)) else None
-            if names != ["a", "b"]:
-                bad = f"returns {v!r}; one padded array per input, in order, is expected"
-            elif want and (len(rc) != 1 or not all(op == ["PAD", "RECHUNK"] for op in ops)):
-                bad = f"a chunked core dimension: the boundary chunks created by padding are not merged (operations {ops})"
-            elif want and rc[0][1].get("boundary_width_real_axes") != {AX: (1, 1)}:
-                bad = "the merge is not told the widths that were padded"
-            elif not want and (rc or not all(op == ["PAD"] for op in ops)):
-                bad = f"no core dimension is chunked, yet the arrays are re-chunked (operations {ops})"
+            for e in o.events:
+                if e[0] != "xr.apply_ufunc":
+                    continue
+                seen += 1
+                v = list(e[1][1:])
+                names = [x.name if isinstance(x, Obj) else x for x in v]
+                ops = [[x_[0] for x_ in x.eff if x_[0] in ("PAD", "RECHUNK")] if isinstance(x, Obj) else None for x in v]
+                if names != ["a", "b"]:
+                    bad = f"xarray.apply_ufunc receives {v!r}; one padded array per input, in order, is expected"
+                elif want and (len(rc) != 1 or not all(op == ["PAD", "RECHUNK"] for op in ops)):
+                    bad = f"a chunked core dimension: the boundary chunks created by padding are not merged (operations {ops})"
+                elif want and rc[0][1].get("boundary_width_real_axes") != {AX: (1, 1)}:
+                    bad = "the merge is not told the widths that were padded"
+                elif not want and (rc or not all(op == ["PAD"] for op in ops)):
+                    bad = f"no core dimension is chunked, yet the arrays are re-chunked (operations {ops})"
+        if not seen and not bad:
+            bad = "xarray.apply_ufunc is never reached"
         if bad:
             ctx.report("R06.9", fi, inst, bad)
         else:
